@@ -515,6 +515,9 @@ pub fn excwalk_session(rep: &mut Report, check: &str, seed: u64, verbose: bool) 
     let mut rng = Rng::new(seed);
     let mut sess = Sess::new(Some((seed & 1) as u32));
     sess.full_every = 256;
+    if rng.chance(1, 4) {
+        sess.io_background(rng.next());
+    }
     if rng.chance(1, 3) {
         for (a, v) in gen::io_noise(&mut rng) {
             sess.poke(a, v);
